@@ -50,8 +50,12 @@ def random_ldpc(rng, count, kmax, cbs=(None,), apis=("recv", "setavail"), payloa
                 finish_choices=(True, True, False), probe_choices=("end", "end", "each")):
     execs = []
     for _ in range(count):
-        k = rng.randint(1, kmax)
-        r = rng.randint(3, max(3, min(2 * k + 3, kmax)))
+        if rng.random() < 0.25:      # tiny k / low code rate: completion entries, N1 close to n-k
+            k = rng.randint(1, 5)
+            r = rng.randint(3, 16)
+        else:
+            k = rng.randint(1, kmax)
+            r = rng.randint(3, max(3, min(2 * k + 3, kmax)))
         n1 = rng.randint(3, min(r, 8))
         seed = rng.randint(1, 2 ** 31 - 2)
         payload = rng.choice(payloads)
@@ -122,10 +126,42 @@ def release_everywhere(pts, rng, cbs=(None, "buf", "null")):
     return execs
 
 
+def tlc_behaviours(bdir, tier):
+    """direction 1: behaviours generated by TLC from the IT decoder model (simulation), replayed in the real decoder"""
+    import json
+    import subprocess
+    num = 150 if tier == "quick" else 2500
+    mdir = os.path.join(bdir, "gen")
+    os.makedirs(mdir, exist_ok=True)
+    args = ["java", "-XX:+UseParallelGC", "-Xmx2g", "-cp", vlib.TLA_CP, "tlc2.TLC", "-simulate", "num=%d" % num, "-depth", "40",
+            "-workers", "4", "-seed", str(vlib.seed()), "-metadir", mdir, "-config", os.path.join(vlib.SPEC, "LdpcItGen.cfg"),
+            os.path.join(vlib.SPEC, "LdpcItGen.tla")]
+    budget = 45 if tier == "quick" else 600
+    try:
+        out = subprocess.run(args, capture_output=True, text=True, timeout=budget, cwd=vlib.SPEC).stdout
+    except subprocess.TimeoutExpired as e:
+        out = e.stdout.decode() if isinstance(e.stdout, bytes) else (e.stdout or "")   # keep what was generated in time
+    if "Error:" in out and "BEH" not in out:
+        raise vlib.Infra("LdpcItGen failed:\n" + out[-2000:])
+    execs = []
+    for ln in out.splitlines():
+        ln = ln.strip()
+        if not ln.startswith('"BEH '):
+            continue
+        b = json.loads(json.loads(ln)[4:])
+        p = P(3, b["k"], b["r"], N1=b["N1"], seed=b["seed"])
+        ex = gen.decode_exec(p, b["seq"], api="recv", finish=False, probe="each")
+        ex.insert(len(ex) - 1, "expect 0 %s %d" % (",".join(str(x) for x in b["avail"]) or "-", 1 if b["complete"] else 0))
+        execs.append(ex)
+    if not execs:
+        raise vlib.Infra("LdpcItGen produced no behaviour:\n" + out[-1500:])
+    return execs
+
+
 def workload(pid, tier, rng):
     q = tier == "quick"
     execs = []
-    ld_small = gen.ldpc_points(10 if q else 12, 6 if q else 12)
+    ld_small = gen.ldpc_points(11 if q else 12, 12 if q else 18)
     ld_mid = [p for p in gen.ldpc_points(16) if p.n > (10 if q else 12)][: (2 if q else 6)]
     rs_small = gen.rs_points(6 if q else 8, ms=(4, 8))
     rs_mid = [p for p in gen.rs_points(10 if q else 12, ms=(4,), codecs=(2,)) if p.n > (6 if q else 8)]
@@ -252,10 +288,19 @@ def run(pid, tier):
             mc_runs.append({"spec": spec, "cfg": cfg, "distinct": mc.distinct, "generated": mc.states})
         drv = vlib.build_driver(bdir)
         execs = workload(pid, tier, rng)
+        ngen = 0
+        if pid in ("C04", "C01"):
+            gen_execs = tlc_behaviours(bdir, tier)
+            ngen = len(gen_execs)
+            execs += gen_execs
         lines = gen.join(execs).split("\n")
-        api = apicheck.run_api(bdir, drv, lines)
+        strict = pid in ("C04", "C01")
+        api = apicheck.run_api(bdir, drv, lines, spec="ApiTrace+LdpcItTrace" if strict else "ApiTrace",
+                               drv_env={"OF_DRIVER_ITPROJ": "48"} if strict else None)
         apicheck.judge(pid, api, verdict)
         rc = verdict.finish()
+        for dline in api["drift"][:5]:
+            print("DRIFT module=LdpcIt %s" % dline)
         distinct = len({tuple(e) for e in execs})
         nontrivial = apicheck.nontrivial_distinct(api, NONTRIVIAL.get(pid, lambda x: x[6] > 3))
         cov = {
@@ -268,6 +313,9 @@ def run(pid, tier):
             "rule": RULES.get(pid, "executions distinct as behaviour texts; non-trivial = more than create/params/release"),
             "model_runs": mc_runs,
             "spec_counters": apicheck.stats_summary(api),
+            "tlc_generated_behaviours_replayed": ngen,
+            "layer_b_steps_matched": api.get("itsteps", 0), "layer_b_bound": (len(api["drift"]) == 0) if strict else None,
+            "drift_lines": len(api["drift"]),
             "trace_lines": api["lines"],
             "distinct_executions": distinct,
             "exhaustive": False,
